@@ -69,7 +69,7 @@ def exc_matches(cls, handler):
 
 
 MODULE_NAMES = {"log", "time", "random", "os", "base64", "json", "service", "websocket"}
-BUILTIN_FUNCS = {"isinstance", "type", "len", "sorted", "set", "list", "bool", "any", "sum", "range",
+BUILTIN_FUNCS = {"isinstance", "type", "len", "sorted", "set", "list", "bool", "any", "all", "sum", "range",
                  "str", "int", "dict", "generate_mailbox_id", "dict_to_bytes", "bytes_to_dict"}
 NAMED_TUPLES = {"SidedMessage": ["side", "phase", "body", "server_rx", "msg_id"],
                 "Usage": ["started", "waiting_time", "total_time", "result"]}
@@ -181,6 +181,16 @@ class Exec:
                 self.assume(f)
             env[nme] = v
             self.argvals[nme] = v
+        for nme, spec in getattr(con, "free", {}).items():
+            # free variables of a closure under contract
+            if spec == "the_server":
+                env[nme] = VRef(H.SERVER, "Server")
+            else:
+                v, facts = make_symbolic_named(spec, "free." + nme)
+                for f in facts:
+                    self.assume(f)
+                env[nme] = v
+                self.argvals[nme] = v
         self.self_ref = self_ref
         # A16: blur_usage is None or a number >= 1
         self.assume(Or(H.CFG_BLUR_NONE, H.CFG_BLUR >= 1))
@@ -860,7 +870,12 @@ class Exec:
         if len(e.generators) != 1:
             raise Unsupported("nested comprehension at %d" % e.lineno)
         g = e.generators[0]
-        seq = self.as_sequence(self.eval(g.iter, env), e)
+        itv = self.eval(g.iter, env)
+        if isinstance(itv, VCursor):
+            from .loops import cursor_sequence
+            seq = cursor_sequence(self, itv, e)
+        else:
+            seq = self.as_sequence(itv, e)
         i = fresh("ci", INT)
         env2 = dict(env)
         nobl = len(self.p.obls)
@@ -883,7 +898,17 @@ class Exec:
 
             def elem(k, elt=elt, i=i):
                 return vsubst(elt, i, k)
-            return VList(n, elem)
+            res = VList(n, elem)
+            if hasattr(seq, "map") and isinstance(elt, VZ) and elt.kind == "int":
+                # summand as a function of the dict value: G[M] = elt with the element replaced by M
+                et = seq.at(i).t
+                M = bound(INT, "M")
+                body = z3.substitute(elt.t, (et, M))
+                if not _mentions(body, i):
+                    G = fresh("summand", ArraySort(INT, INT))
+                    self.assume(z3.ForAll([M], G[M] == body, patterns=[G[M]]))
+                    res.dict_src = (seq.map, G)
+            return res
         k = kind_of(elt.val) if isinstance(elt, VOpt) else kind_of(elt)
         if k not in ("str", "int", "real", "bool", "json"):
             raise Unsupported("filtered comprehension element %r at %d" % (elt, e.lineno))
@@ -1087,11 +1112,15 @@ class Exec:
             self.assume(term)
         for comp in con.modifies:
             self.st.havoc(comp, short.replace(".", "_"))
-        result, facts = make_symbolic(con.result, "ret." + short.split(".")[-1])
+        if getattr(con, "result_term", None) is not None:
+            # a functional result specification: the call IS this term of the pre-state
+            result, facts = VZ(con.result_term(Ctx(pre, pre, vals, self_ref, con.cls)), con.result), []
+        else:
+            result, facts = make_symbolic(con.result, "ret." + short.split(".")[-1])
         for f in facts:
             self.assume(f)
         c = Ctx(pre, self.st, vals, self_ref, con.cls, result=result)
-        rclauses = con.eval_raises(c)
+        rclauses = con.eval_raises(c, for_caller=True)
         choice = self.p.decide(1 + len(rclauses), "call@%d" % e.lineno) if rclauses else 0
         if choice == 0:
             for (exc, name, when, posts, fields, tags, iff) in rclauses:
@@ -1100,8 +1129,10 @@ class Exec:
             for name, term, tags in con.eval_ensures(c, for_caller=True):
                 self.assume(term)
             self.call_results[short] = result
+            self.call_results[short + "@args"] = vals
             return result
         exc, name, when, posts, fields, tags, iff = rclauses[choice - 1]
+        self.call_results[short + "@args"] = vals
         self.assume(when)
         for pname, term in posts:
             self.assume(term)
@@ -1134,8 +1165,26 @@ class Exec:
         if self.last_clock is not None:
             self.assume(t >= self.last_clock)   # A15
         self.last_clock = t
+        # A15: clock reads do not decrease, and every arrival time in the database is an earlier
+        # clock read (census: `added` only ever receives the event's clock read)
+        ms = self.st.t("ch.mailbox_sides")
+        self.assume(ms.forall(lambda r: r.added <= t))
         self.oracles.append(("time.time", t))
         return VZ(t, "real")
+
+
+def _mentions(t, c):
+    seen = set()
+    stack = [t]
+    while stack:
+        x = stack.pop()
+        if x.get_id() in seen:
+            continue
+        seen.add(x.get_id())
+        if x.eq(c):
+            return True
+        stack.extend(x.children())
+    return False
 
 
 def make_symbolic_named(spec, base):
